@@ -62,6 +62,20 @@ def build_streams(rng, facts, name):
         b.emit("kobs t", expect_stream(st, kind))
     if has_map:
         b.emit("kdec t s sparse nil", "ok"); b.emit("kobs t", expect_stream(st, "sparse"))
+    # the same stream into NON-EMPTY receivers of every fill level (in particular a paginated store whose buffer is past its
+    # compaction trigger): the result is the receiver's content plus the stream's, whatever the receiver's kind -- twin of sparse kind
+    nfill = rng.choice([3, 40, 100, 110, 125, 140])
+    vals = rand_values(rng, nfill, -1, 1, zeros=0, signs=((1,) if nfill >= 100 else (1, -1)))
+    rk = rng.choice(["pag", "pag", "dense", "sparse"])
+    b.knew("rr", spec, rk, rk); b.knew("tw", spec, "sparse", "sparse")
+    for v in vals: b.kadd("rr", v); b.kadd("tw", v)
+    b.emit("kdecinto rr s", "ok"); b.emit("kdecinto tw s", "ok")
+    jt = b.emit("kobs tw")
+    def same_content(a, env, impl, jt=jt):
+        if a.startswith("err") or a == "panic": return "decoding a well-formed stream into a non-empty receiver failed: %r" % a
+        ha, pa, na = split_kobs(a); ht, pt, nt = split_kobs(impl[jt])
+        return None if (pa, na, ha["zero"]) == (pt, nt, ht["zero"]) else "content after decoding into a non-empty %s receiver differs from the same decode into a sparse twin" % rk
+    b.emit("kobs rr", same_content)
     b.meta = {"blocks": st.desc}
     return b
 
@@ -69,13 +83,22 @@ def build_exact_into_plain(rng, facts, name):
     spec = rng.choice(sorted(facts)); b = Builder(name)
     kp, kn = rng.choice(STORES), rng.choice(STORES)
     b.knew("x", spec, kp, kn, True)
-    for v in rand_values(rng, rng.choice([1, 3, 10, 40]), -2, 2): b.kadd("x", v, rng.choice([None, None, 2.0, 0.5]))
+    arbitrary = rng.random() < 0.5           # fractional, non-dyadic weights: the exact count then takes a full-length (9-byte) varfloat
+    b.no_model = arbitrary
+    for v in rand_values(rng, rng.choice([1, 3, 10, 40]), -2, 2):
+        b.kadd("x", v, rng.choice([0.1, 0.6, 4.0 / 3, 0.3, 1e-3, 2.0]) if arbitrary else rng.choice([None, None, 2.0, 0.5]))
     b.emit("kenc e x %d" % 0, "ok")
     j = b.emit("kobs x")
     for kind in rng.sample(STORES, 2):
         b.emit("kdec p e %s nil" % kind, "ok")           # the plain decoder accepts it and ignores the statistics blocks
-        def chk(a, env, impl, j=j):
+        def chk(a, env, impl, j=j, arbitrary=arbitrary):
+            if a.startswith("err") or a == "panic": return "plain decoding of an exact-summary encoding failed: %r" % a
             hx, px, nx = split_kobs(impl[j]); ha, pa, na = split_kobs(a)
+            if arbitrary:       # weights that do not survive the documented +1/-1 transform: each bin holds the transform of its weight
+                for nm, src, got in (("positive", px, pa), ("negative", nx, na)):
+                    want = [(i, wire.wire_w(float(w))) for i, w in parse_obs(src)]; want = [(i, w) for i, w in want if w != 0]
+                    if want != parse_obs(got): return "%s bins after plain decoding are %r; the sketch held %r (expected the (w+1)-1 transform of each)" % (nm, got, src)
+                return None
             return None if (pa, na, ha["zero"]) == (px, nx, hx["zero"]) else "plain decoding of an exact-summary encoding holds %r / %r, the sketch held %r / %r" % (pa, na, px, nx)
         b.emit("kobs p", chk)
     return b
